@@ -341,6 +341,16 @@ func firstDiff(a, b any, path []any) []any {
 	return path
 }
 
+// usesAllSubgraphs: every subgraph of the layout owns at least one field (an
+// empty subgraph is not a configuration).
+func usesAllSubgraphs(l *fedlab.Layout) bool {
+	used := map[int]bool{}
+	for _, o := range l.OwnerVector() {
+		used[o] = true
+	}
+	return len(used) == l.N
+}
+
 func nearFamily(run *vk.Run, name string, s *fedlab.Supergraph, u *fedlab.Universe, base func(fedlab.FieldRef) int, menu func(t, f string) [][]fedlab.ArgUse, provides []fedlab.FieldRef, widthsQ, widthsT []int) *family {
 	f := &family{name: name, s: s, u: u, schema: mustSchema(s.SDL())}
 	d := s.Distributable()
@@ -352,7 +362,12 @@ func nearFamily(run *vk.Run, name string, s *fedlab.Supergraph, u *fedlab.Univer
 	f.layouts = append(f.layouts, fedlab.NewLayout(s, 1, make([]int, len(d)), "mono"))
 	if run.Thorough() {
 		f.layouts = append(f.layouts, fedlab.NearLayouts(s, 2, bv, 2)...)
-		f.layouts = append(f.layouts, fedlab.NearLayouts(s, 3, bv, 1)[1:]...)
+		// three subgraphs: only the assignments that give the third one something
+		for _, l := range fedlab.NearLayouts(s, 3, bv, 1)[1:] {
+			if usesAllSubgraphs(l) {
+				f.layouts = append(f.layouts, l)
+			}
+		}
 	} else {
 		f.layouts = append(f.layouts, fedlab.NearLayouts(s, 2, bv, 1)...)
 	}
@@ -658,10 +673,10 @@ func TestCheck(t *testing.T) {
 				}
 				variants := []*fedlab.Op{base}
 				// quick: decorations on the base layouts (and every 7th operation on
-				// the monolith); thorough: on every federated layout
+				// the monolith); thorough: on every two-subgraph layout within distance 1
 				decorate := oi%7 == 0
 				if l.N > 1 {
-					decorate = (run.Thorough() && distance(l.OwnerVector(), f.base) <= 1) || l.Name == "near0" || l.Name == "near0+provides" || l.Name == "near0+nullentities"
+					decorate = (run.Thorough() && l.N == 2 && distance(l.OwnerVector(), f.base) <= 1) || l.Name == "near0" || l.Name == "near0+provides" || l.Name == "near0+nullentities"
 				}
 				if decorate {
 					variants = append(variants, fedlab.Decorate(base, f.schema)...)
